@@ -79,6 +79,8 @@ def cases(draw, tier='quick'):
             spec['etflag'] = bool(spec['etflag'] and fmt == 'uamiv')
     if route == 'pnc':
         draw(C.input_orders(spec))
+        if not spec.get('mask'):
+            draw(C.input_layouts(spec))
     if route == 'refread':
         # 0/1 files of the same format and another shape are opened (and
         # kept alive or closed again) between reading f and writing it
@@ -102,6 +104,8 @@ def describe(r, spec, m):
         r.label('vdtype:' + spec.get('vdtype', 'f4'))
         if spec.get('vorder'):
             r.label('creation-order-permuted')
+        if spec.get('memlayout'):
+            r.label('memlayout:' + spec['memlayout'])
         if spec.get('mask'):
             r.label('masked-input:' + spec['mask']['kind'])
     if spec['route'] == 'refread':
